@@ -9,10 +9,16 @@ tie    : * translator (every run)
            the translator's summaries) predicts which answers differ from a fresh value;
            compared with the observed "value changed" flags
          * the exemptions of translate/fields_C06.json are re-validated dynamically
+         * round 3: kernel write sets / call-site provenance / constructor aliases (tables of
+           gen_C06.py, theorems kernel_calls_clean, ctor_aliases_unedited) validated by watching
+           every compiled kernel for the whole run (harness/c06_wide.py: KernelWatch) and
+           compared with the compiled model (driver requests kclean / kwritten / ctorclean)
 search : for every class spec (shared with C01): snapshot (deep copy) every cached value,
          every array field and every caller-supplied input, run one query, re-query
          everything: any change is an interference; constructors of derived objects on a
-         shared ClimateData / on caller arrays; public functions taking arrays.
+         shared ClimateData / on caller arrays; public functions taking arrays; every public
+         class / function found by inspecting the package, float64/float32 x C/F/strided/read-only
+         caller arrays, all zero-argument methods incl. mutators (harness/c06_wide.py).
 """
 import contextlib
 import copy
@@ -25,6 +31,7 @@ import numpy as np
 
 from . import common
 from .c01 import SPECS, same, quiet, brief, query_variants, SKIP_QUERIES, skip_now, public_queries
+from . import c06_wide
 
 
 def snap(v):
@@ -98,6 +105,43 @@ def run(ctx):
         "unrestored": [f'{r["module"]}:{r["cls"]}.{r["func"]}:{r["line"]}' for r in eff["table"]
                        if r["verdict"] == "unrestored"]}
 
+    ctx.extra["effect_summaries"].update(
+        kernel_call_sites=len(eff["kernel_calls"]), ctor_aliases=len(eff["ctor_aliases"]),
+        field_edits=len(eff["field_edits"]), to_cy_copies=eff["to_cy_copies"])
+    # compiled kernels are watched for the whole run: observed stores vs the static write sets,
+    # observed sharing vs the static provenance of the call sites
+    watch = c06_wide.KernelWatch(eff)
+    watch.install()
+    try:
+        _run(ctx, eff, own_tables, watch)
+    finally:
+        watch.uninstall()
+    watch.report(ctx)
+    kernel_table_correspondence(ctx, eff, watch)
+
+
+def kernel_table_correspondence(ctx, eff, watch):
+    """the Lean model's `paramWritten` (a lookup in the generated tables, unknown = written) for
+    every (kernel, parameter) seen at run time, against what was observed: an observed store must
+    be a predicted one; plus the table checks themselves"""
+    reqs, impl = ["kclean", "koffenders", "ctorclean", "ctoroffenders"], ["1", "-", "1", "-"]
+    ctx.correspond("generated kernel / constructor tables pass the decidable checks in the "
+                   "compiled model", reqs, impl)
+    pairs = sorted({(k, p["name"]) for k, v in eff["kernels"].items() for p in v["params"]
+                    if p["array"] and k in watch.calls})
+    if pairs:
+        ans = common.driver("C06", [f"kwritten {k} {p}" for k, p in pairs])
+        bad = [f"{k}({p})" for (k, p), a in zip(pairs, ans) if (k, p) in watch.written and a != "1"]
+        ctx.obligation(f"model predicts every store observed in a kernel parameter "
+                       f"({len(pairs)} executed (kernel, array parameter) pairs, "
+                       f"{sum(1 for a in ans if a == '1')} predicted written, "
+                       f"{len(watch.written)} observed written)", "correspondence", not bad,
+                       ", ".join(bad[:10]))
+
+
+def _run(ctx, eff, own_tables, watch):
+    rng = ctx.rng
+    quick = ctx.tier == "quick"
     restore_preconditions(ctx, eff)
     funcnet_interference(ctx)
 
@@ -152,11 +196,25 @@ def run(ctx):
                          {"class": cname, "query": m, "args": kw,
                           "first": brief(base[(m, str(kw))]), "second": brief(again)})
         fields0 = {k: v.copy() for k, v in array_fields(obj).items()}
+        # objects shared with the cache / the caller, for the kernel watch: the values the queries
+        # returned (an lru hit returns the stored object itself), array fields, caller inputs
+        live = []
+        for m, kw in usable:
+            try:
+                v = quiet(getattr(obj, m), **kw)
+            except Exception:  # noqa
+                continue
+            live += [x for x in (v if isinstance(v, (tuple, list)) else [v])
+                     if isinstance(x, np.ndarray)]
+        watch.pool = live + list(array_fields(obj).values()) + [
+            (getattr(obj, k)[0] if isinstance(getattr(obj, k), tuple) else getattr(obj, k))
+            for k in inputs]
         order = list(usable)
         if quick and len(order) > 28:
             order = rng.sample(order, 28)
         names = [m for m, kw in usable if not kw]
         for (m1, kw1) in order:
+            watch.context = f"{cname}.{m1}({kw1})"
             try:
                 quiet(getattr(obj, m1), **kw1)
             except Exception:  # noqa
@@ -202,11 +260,15 @@ def run(ctx):
                              f"{cname}: calling {m1}({kw1}) modifies the caller-supplied input {k}",
                              {"class": cname, "q1": m1, "input": k})
                     inputs[k] = cur.copy()
+    watch.pool = []
     ctx.correspond("purity model over the translator's effect summaries predicts the observed "
                    "q2;q1;q2 interference flags", reqs, impl)
 
     constructors(ctx)
     array_functions(ctx)
+    c06_wide.kernel_drive(ctx, watch)
+    c06_wide.constructors_by_inspection(ctx, watch)
+    c06_wide.functions_by_inspection(ctx)
     exemptions(ctx, eff)
 
 
